@@ -6,6 +6,7 @@ Property theorems only, in sub-modules (all in `namespace Retro.Props.C16`):
   * `Props/C16/Pack.lean`       u32 packing byte order, RGB <-> RGBA, float -> 8-bit clamping
   * `Props/C16/Field.lean`      float conversions over an arbitrary ordered field: in range, grays, hue 1 = hue 0
   * `Props/C16/RoundTripF.lean` float round trip is exact over an arbitrary ordered field
+  * `Props/C16/Inverse.lean`    HSL -> RGB -> HSL is the identity on canonical HSL colours (ordered field)
   * `Props/C16/Reference.lean`  the sextant code equals the independent CSS closed form used by the oracle
 -/
 import Retro.Props.C16.Int8
@@ -14,3 +15,4 @@ import Retro.Props.C16.Pack
 import Retro.Props.C16.Field
 import Retro.Props.C16.RoundTripF
 import Retro.Props.C16.Reference
+import Retro.Props.C16.Inverse
